@@ -89,6 +89,13 @@ partial def loop (h : IO.FS.Stream) : IO Unit := do
     | .ok g => IO.println (summary g)
     | .err e => IO.println s!"err {e}"
     | .panic p => IO.println s!"panic {p}"
+  | ["read", skip, hash, "sj0", hex] =>
+    -- the external Shift-JIS decoder rejects a name field of this file's start block (verdict passed by the harness)
+    let r := readSlp { T with sjisOk := fun _ => false } { skipFrames := skip == "1", computeHash := hash == "1" } (parseHex hex)
+    match r with
+    | .ok g => IO.println (summary g)
+    | .err e => IO.println s!"err {e}"
+    | .panic p => IO.println s!"panic {p}"
   | ["rt", hex] =>
     let r := (readSlp T {} (parseHex hex)).bind writeSlp
     match r with
